@@ -293,6 +293,11 @@ def run(F, res, tier):
     resolutions_are_not_memoised_by_name(F, res)
     unknowns_are_numbered_by_the_counter(F, res)
     type_walkers_are_complete(F, res)
+    # the inferencer resolves a name through the scope the scope walk recorded for the expression: a `use` whose call is visited in the
+    # callback's scope types `use x <- try(x)` with the new binder; the groups are inferred member by member in declaration order
+    from rules import c05 as _c05, c10 as _c10
+    _c05.let_use_ordering(F, res, rule="Y19")
+    _c10.declared_everywhere(F, res, rule="Y20")
     from rules import c05 as _c05
     _c05.lowering_takes_every_child_of_a_list(F, res, rule="Y17")
     _c05.alternatives_bind_one_name_once(F, res, rule="Y17")
